@@ -40,6 +40,8 @@ def _startup_scripts():
         "raise_before_receive": [["sleep", 0.15], ["raise", "Exception"]],
         "raise_after_receive": [["recv"], ["sleep", 0.15], ["raise", "Exception"]],
         "hang": [["recv"], ["sleep", 30.0]],
+        # ... without ever asking for the start-up message (run with an application queue that holds nothing: max_app_queue_size 0)
+        "hang_no_receive": [["sleep", 30.0]],
         # leaves the lifespan scope without a word: like raising, it will never complete start-up, and must not take the worker down
         "return_immediately": [["return"]],
         "return_after_receive": [["recv"], ["sleep", 0.15], ["return"]],
@@ -57,6 +59,9 @@ def _shutdown_scripts():
         "shutdown_failed_then_lingers": LS_OK[:4] + [["try_send", {"type": "lifespan.shutdown.failed"}], ["sleep", 0.3]],
         "shutdown_unknown": LS_OK[:4] + [["try_send", {"type": "lifespan.bogus"}]],
         "shutdown_return_early": LS_OK[:4],
+        # completes its start-up without having read the start-up message: with a queue of one (max_app_queue_size 1) there is no room for
+        # the shutdown message - the shutdown timeout still has to end the wait
+        "shutdown_queue_full": [["send", {"type": "lifespan.startup.complete"}], ["sleep", 30.0]],
     }
 
 
@@ -217,7 +222,11 @@ def run_one(case, tally):
             "/mutate": [["recv_until_end"], ["set_state", "x", "mutated"], ["respond", 200, [(b"content-length", b"2")], b"ok"]],
         },
     }
-    cfg = {"startup_timeout": 0.6 if case["script"] == "hang" else 5.0, "shutdown_timeout": 0.6, "graceful_timeout": 2.0, "keep_alive_timeout": 5.0}
+    cfg = {"startup_timeout": 0.6 if case["script"] in ("hang", "hang_no_receive") else 5.0, "shutdown_timeout": 0.6, "graceful_timeout": 2.0, "keep_alive_timeout": 5.0}
+    if case["script"] == "hang_no_receive":
+        cfg["max_app_queue_size"] = 0
+    if case["script"] == "shutdown_queue_full":
+        cfg["max_app_queue_size"] = 1
     h = ServeHarness(be, cfg, apps)
     served = []
     try:
@@ -267,7 +276,7 @@ def run_one(case, tally):
                 h.apps.trigger("finish")
                 data, eof = recv_all(socks[0], timeout=2.0)
                 tr.ev("client", "inflight-response", n=len(data), complete=data.endswith(b"slow"))
-            finished = h.wait_done(6.0 if case["activity"] != "stuck" else 14.0)
+            finished = h.wait_done(14.0 if case["activity"] == "stuck" else 12.0 if case["script"] in ("shutdown_hang", "shutdown_queue_full") else 6.0)
             for s in socks:
                 s.close()
         else:  # state isolation
@@ -284,7 +293,7 @@ def run_one(case, tally):
                 s.close()
             h.trigger_shutdown()
             finished = h.wait_done(6.0)
-        if not finished:
+        if not finished and case["script"] not in ("hang", "hang_no_receive", "shutdown_hang", "shutdown_queue_full"):
             tally.inconclusive["serve-did-not-return-in-6s(%s)" % case["family"]] += 1
     finally:
         h.close()
@@ -318,7 +327,13 @@ def run_one(case, tally):
     if phase == "startup":
         tally.clause("order")
         early = [e for e in accepts + servers + http_starts if gate is None or e[0] < gate]
-        must_abort = script in ("failed", "failed_keeps_running", "failed_then_returns", "failed_nomsg_keeps_running", "failed_emptymsg_keeps_running", "hang")
+        must_abort = script in ("failed", "failed_keeps_running", "failed_then_returns", "failed_nomsg_keeps_running", "failed_emptymsg_keeps_running", "hang",
+                                "hang_no_receive")
+        if script in ("hang", "hang_no_receive") and not finished:
+            # start-up timeout 0.6 s; the observation window (1.6 s of probing + 6 s) is more than ten times that
+            findings.append({"clause": "failure-aborts", "sig": "C14.failure/startup-timeout-not-enforced/%s" % be, "backend": be,
+                             "detail": "the lifespan application neither completed nor failed its start-up (%s, max_app_queue_size %r) and startup_timeout is 0.6 s: "
+                                       "serve() was still waiting 7 s later" % (script, cfg.get("max_app_queue_size", 10))})
         if early and not must_abort:
             out_sig = "C14.order/served-before-startup-complete"
             findings.append({"clause": "order", "sig": out_sig, "backend": be,
@@ -353,7 +368,9 @@ def run_one(case, tally):
     elif phase == "shutdown":
         tally.clause("shutdown-once")
         sd = [e for e in ev if e[2] == "app" and e[3] == "recv" and e[4]["inst"] == ls_inst and e[4]["msg"].get("type") == "lifespan.shutdown"]
-        if len(sd) != 1:
+        if script == "shutdown_queue_full":
+            pass  # this application never asks for a message: how many it would have been handed is not observable
+        elif len(sd) != 1:
             findings.append({"clause": "shutdown-once", "sig": "C14.shutdown/count-%d" % len(sd), "backend": be,
                              "detail": "lifespan.shutdown delivered %d times (%s)%s" % (len(sd), case["family"],
                                        "" if case["activity"] != "stuck" else "; a request handler outlasted the grace period (2.0 s), serve() %s within 14 s of the trigger" % (
@@ -378,6 +395,10 @@ def run_one(case, tally):
                 if resp is not None and not resp[4]["complete"]:
                     findings.append({"clause": "shutdown-once", "sig": "C14.shutdown/inflight-truncated", "backend": be,
                                      "detail": "request released inside the grace period was not delivered in full"})
+        if script in ("shutdown_hang", "shutdown_queue_full") and not finished:
+            findings.append({"clause": "shutdown-once", "sig": "C14.shutdown/timeout-not-enforced/%s" % be, "backend": be,
+                             "detail": "the lifespan application did not complete its shutdown (%s) and shutdown_timeout is 0.6 s: serve() had not ended 12 s after "
+                                       "the trigger" % script})
         if script == "shutdown_hang" and h.result == "returned":
             tally.notes["shutdown-hang-returned-normally"] += 1
     else:
